@@ -165,6 +165,22 @@ func (e *c07expander) expand1(v ssa.Value) []c07alt {
 					return out
 				}
 			}
+			if out, ok := e.field(x); ok {
+				return out
+			}
+			if out, ok := e.table(x); ok {
+				return out
+			}
+			if out, ok := e.global(x); ok {
+				return out
+			}
+		}
+	case *ssa.Field:
+		if out, ok := e.field(x); ok {
+			return out
+		}
+		if out, ok := e.table(x); ok {
+			return out
 		}
 	case *ssa.Parameter:
 		fn := x.Parent()
@@ -237,12 +253,104 @@ func (e *c07expander) expand1(v ssa.Value) []c07alt {
 				return out
 			}
 		}
+		if keys, ok := c07mapKeys(x); ok && e.hops < maxHops+2 {
+			// the key variable of a range over a map literal (local or package level): any of its keys
+			saved := e.stack
+			e.stack = nil
+			e.hops++
+			var out []c07alt
+			for _, k := range keys {
+				out = append(out, e.expand(k)...)
+			}
+			e.stack = saved
+			e.hops--
+			return out
+		}
 	case *ssa.Call:
 		if out, ok := e.results(x, 0); ok {
 			return out
 		}
 	}
 	return e.leaf(v)
+}
+
+// field: v reads a field of a carrier struct of the repository (c07_fields.go): whatever is stored to that field,
+// anywhere. The hop is context-free: the calls entered so far say nothing about the function that stores the field.
+func (e *c07expander) field(v ssa.Value) ([]c07alt, bool) {
+	sts := c07fieldSources(v)
+	if len(sts) == 0 || e.hops >= maxHops+2 {
+		return nil, false
+	}
+	saved := e.stack
+	e.stack = nil
+	e.hops++
+	defer func() { e.stack = saved; e.hops-- }()
+	var out []c07alt
+	for _, st := range sts {
+		out = append(out, c07withGuard(e.expand(st.Val), c07guard{st.Block(), nil})...)
+	}
+	return out, true
+}
+
+// table: v reads an element of a table (slice / array literal, local or package level): any of its entries.
+func (e *c07expander) table(v ssa.Value) ([]c07alt, bool) {
+	vals, ok := c07tableSources(v)
+	if !ok || e.hops >= maxHops+2 {
+		return nil, false
+	}
+	saved := e.stack
+	e.stack = nil
+	e.hops++
+	defer func() { e.stack = saved; e.hops-- }()
+	var out []c07alt
+	for _, val := range vals {
+		out = append(out, e.expand(val)...)
+	}
+	return out, true
+}
+
+// global: v reads a package-level variable of a basic type (`var hdrRealIP = "X-Real-Ip"`): whatever the repository
+// stores into it (its initialiser included). A variable whose address is handed out is left alone.
+func (e *c07expander) global(v *ssa.UnOp) ([]c07alt, bool) {
+	g, ok := v.X.(*ssa.Global)
+	if !ok || e.hops >= maxHops+2 {
+		return nil, false
+	}
+	if _, basic := v.Type().Underlying().(*types.Basic); !basic {
+		return nil, false
+	}
+	var vals []ssa.Value
+	escapes := false
+	eachInstrOf(c07tableFns, func(_ *ssa.Function, i ssa.Instruction) {
+		for _, op := range i.Operands(nil) {
+			if op == nil || *op != ssa.Value(g) {
+				continue
+			}
+			switch x := i.(type) {
+			case *ssa.Store:
+				if x.Addr == ssa.Value(g) {
+					vals = append(vals, x.Val)
+				} else {
+					escapes = true
+				}
+			case *ssa.UnOp:
+			default:
+				escapes = true
+			}
+		}
+	})
+	if escapes || len(vals) == 0 {
+		return nil, false
+	}
+	saved := e.stack
+	e.stack = nil
+	e.hops++
+	defer func() { e.stack = saved; e.hops-- }()
+	var out []c07alt
+	for _, val := range vals {
+		out = append(out, e.expand(val)...)
+	}
+	return out, true
 }
 
 // results: what a repository helper returns as its idx-th result.
@@ -418,7 +526,24 @@ func c07isLookupD(v ssa.Value, depth int, seen map[ssa.Value]bool) bool {
 	switch x := v.(type) {
 	case *ssa.Call:
 		if x.Call.IsInvoke() {
-			return false
+			// the lookup hook as an interface instead of a callback (`p.Router.Lookup(r)`): a method of an interface kept
+			// in a struct field that maps the request to a *route.Target
+			switch fv := x.Call.Value.(type) {
+			case *ssa.UnOp:
+				if _, isField := fv.X.(*ssa.FieldAddr); fv.Op != token.MUL || !isField {
+					return false
+				}
+			case *ssa.Field:
+			default:
+				return false
+			}
+			takesReq := false
+			for _, a := range x.Call.Args {
+				if typeStr(a.Type()) == "*net/http.Request" {
+					takesReq = true
+				}
+			}
+			return takesReq && namedIs(x.Type(), "route.Target")
 		}
 		if sc := x.Call.StaticCallee(); sc != nil {
 			if !isRepoFn(sc) || len(sc.Blocks) == 0 {
@@ -488,9 +613,24 @@ func c07isLookupD(v ssa.Value, depth int, seen map[ssa.Value]bool) bool {
 				}
 				return n > 0
 			}
+			return c07lookupField(x, depth, seen)
 		}
+	case *ssa.Field:
+		return c07lookupField(x, depth, seen)
 	}
 	return false
+}
+
+// c07lookupField: v reads a field of a carrier struct (the target kept in a per-request struct): every value stored to
+// that field is the lookup result.
+func c07lookupField(v ssa.Value, depth int, seen map[ssa.Value]bool) bool {
+	sts := c07fieldSources(v)
+	for _, st := range sts {
+		if !c07isLookupD(st.Val, depth+1, seen) {
+			return false
+		}
+	}
+	return len(sts) > 0
 }
 
 // c07lookupOrNil: every return of fn yields the lookup result or nil, and one of them the lookup result (a helper that
@@ -521,12 +661,13 @@ func c07allReturns(fn *ssa.Function, idx int, pred func(ssa.Value) bool) bool {
 	return ok && n > 0
 }
 
-// c07targetNonNil: the fact establishes that the looked-up target is not nil - directly (`t != nil`), or as the
-// verdict of a repository helper whose every return with that verdict lies under such a test of its own parameter
-// (`if p.noRoute(w, t) { return }`).
-func c07targetNonNil(f Fact, depth int) bool {
+// c07targetIs: the fact establishes that the looked-up target is not nil (nonNil) / is nil (!nonNil) - directly
+// (`t != nil`), or as the verdict of a repository helper: every return that can produce this verdict does so where the
+// target is known to be (non-)nil - the return lies under such a test (`if t == nil { ...; return true }`), or the
+// returned value is itself such a test (`return x.t == nil`, `return t != nil && allowed`).
+func c07targetIs(f Fact, nonNil bool, depth int) bool {
 	if nn, ok := nilFact(f, c07isLookup); ok {
-		return nn
+		return nn == nonNil
 	}
 	// the verdict may be the only result or one of several (`t, ok := p.route(w, r)`)
 	cond, idx := f.Cond, 0
@@ -551,17 +692,46 @@ func c07targetNonNil(f Fact, depth int) bool {
 			return
 		}
 		n++
-		if !c07holdsBlock(r.Block(), func(g Fact) bool { return c07targetNonNil(g, depth+1) }, map[*ssa.BasicBlock]bool{}) {
+		if !c07verdictImplies(r.Results[idx], f.Truth, c07guard{r.Block(), nil}, nonNil, depth+1, 0) {
 			all = false
 		}
 	})
 	return all && n > 0
 }
 
-func c07targetNil(f Fact) bool {
-	nn, ok := nilFact(f, c07isLookup)
-	return ok && !nn
+// c07verdictImplies: whenever the boolean v has the value `truth` at the program point g, the target is (non-)nil.
+func c07verdictImplies(v ssa.Value, truth bool, g c07guard, nonNil bool, depth, d int) bool {
+	if bv, isK := constBool(v); isK && bv != truth {
+		return true // this alternative never yields the verdict
+	}
+	if c07holdsGuard(g, func(h Fact) bool { return c07targetIs(h, nonNil, depth) }) {
+		return true
+	}
+	if d > 6 {
+		return false
+	}
+	switch x := v.(type) {
+	case *ssa.Const:
+		return false
+	case *ssa.UnOp:
+		if x.Op == token.NOT {
+			return c07verdictImplies(x.X, !truth, g, nonNil, depth, d+1)
+		}
+	case *ssa.Phi:
+		// `a && b`, `a || b`, a verdict variable assigned on several branches
+		for k, e := range x.Edges {
+			if !c07verdictImplies(e, truth, c07guard{x.Block().Preds[k], x.Block()}, nonNil, depth, d+1) {
+				return false
+			}
+		}
+		return len(x.Edges) > 0
+	}
+	return c07targetIs(Fact{v, truth}, nonNil, depth)
 }
+
+func c07targetNonNil(f Fact, depth int) bool { return c07targetIs(f, true, depth) }
+
+func c07targetNil(f Fact) bool { return c07targetIs(f, false, 0) }
 
 // c07knownNil / c07knownNonNil: the looked-up target is nil / not nil whenever control reaches b.
 func c07knownNil(b *ssa.BasicBlock) bool {
@@ -729,6 +899,11 @@ func c07aliases(fns []*ssa.Function, seeds []ssa.Value) map[ssa.Value]bool {
 					}
 				}
 			}
+		case *ssa.Field:
+			// the URL kept in a struct value (`u.target` with a value receiver)
+			for _, st := range c07fieldSources(x) {
+				add(st.Val)
+			}
 		case *ssa.ChangeType:
 			add(x.X)
 		}
@@ -757,6 +932,11 @@ func c07aliases(fns []*ssa.Function, seeds []ssa.Value) map[ssa.Value]bool {
 					if fa, ok := y.Addr.(*ssa.FieldAddr); ok && c07repoStruct(fa) {
 						for _, ld := range c07loadsOfField(fns, fa) {
 							add(ld)
+						}
+						if k, ok := c07carrierKey(fa.X.Type(), fa.Field); ok {
+							for _, ld := range c07fields.loads[k] {
+								add(ld) // also reads through a struct value (ssa.Field)
+							}
 						}
 					}
 				}
